@@ -64,7 +64,12 @@ absence of `tag ++ "alias"` on the alias field is stated under the no-collision 
 extra hypothesis `hdesc : tag ≠ "dialsdesc"`.  Everything else is verbatim.
 
 The alias field additionally loses every source-specific name tag without an alias of its own
-(`C14_alias_drops_unaliased`); an aliased tag is never among those, so the last conjunct stands. -/
+(`C14_alias_drops_unaliased`); an aliased tag is never among those, so the last conjunct stands.
+
+Two further conjuncts (at the end) since the repair of P10: the primary keeps the field's embeddedness
+(`hp.anon = h.anon`) and the alias copy is NEVER embedded (`hal.anon = false`, `aliasField.Anonymous =
+false`) — the alias copy of an embedded struct is an ordinary named field `Base_alias…`, so the manglers
+that hoist embedded fields (flatten, anonymous flatten) no longer produce every promoted name twice. -/
 theorem C14_alias_shape_partial (tags : List String) (h : Hdr) (t : Ty) (tag a : String)
     (ht : tag ∈ tags) (ha : tagGet h.tags (tag ++ "alias") = some a) :
     ∃ hp hal, aliasMangle tags h t = .ok [(hp, t), (hal, t)] ∧
@@ -72,14 +77,15 @@ theorem C14_alias_shape_partial (tags : List String) (h : Hdr) (t : Ty) (tag a :
       tagGet hp.tags (tag ++ "alias") = none ∧
       ((hnocoll : ∀ t1 ∈ tags, ∀ t2 ∈ tags, t1 ++ "alias" ≠ t2) → tagGet hal.tags (tag ++ "alias") = none) ∧
       (tags.Nodup → (hnocoll : ∀ t1 ∈ tags, ∀ t2 ∈ tags, t1 ++ "alias" ≠ t2) → (hdesc : tag ≠ "dialsdesc") →
-        tagGet hal.tags tag = some a) := by
+        tagGet hal.tags tag = some a) ∧
+      hp.anon = h.anon ∧ hal.anon = false := by
   have hmem : (tag, a) ∈ aliasFound tags h := mem_aliasFound.2 ⟨ht, ha⟩
   have hne : (aliasFound tags h).isEmpty = false := by
     cases hfd : aliasFound tags h with
     | nil => rw [hfd] at hmem; cases hmem
     | cons p f => rfl
   rw [aliasMangle_eq, hne]
-  refine ⟨_, _, rfl, rfl, rfl, ?_, ?_, ?_, ?_⟩
+  refine ⟨_, _, rfl, rfl, rfl, ?_, ?_, ?_, ?_, rfl, rfl⟩
   · exact append_suffix_ne h.name aliasFieldSuffix (by decide)
   · exact tagGet_delFold_none _ _ _ (Or.inr ⟨(tag, a), hmem, rfl⟩)
   · intro hnocoll
@@ -97,6 +103,29 @@ theorem C14_alias_shape_partial (tags : List String) (h : Hdr) (t : Ty) (tag a :
     rw [tagGet_dropFold_keep _ _ _ _ (fun _ => aliasFound_any_of_mem hmem)]
     exact tagGet_setFold_tag _ _ tag a hmem (aliasFound_nodup tags h hnd)
       (fun p hp => hnocoll p.1 (mem_aliasFound.1 hp).1 tag ht)
+
+/-- The alias copy is never embedded, the primary (and an un-aliased field) keeps its embeddedness — for
+EVERY field and tag list, whatever `aliasMangle` returns (since the repair of P10; before, the alias copy
+of an embedded field was embedded as well). -/
+theorem C14_alias_copy_not_embedded (tags : List String) (h : Hdr) (t : Ty) (outs : List FT)
+    (hm : aliasMangle tags h t = .ok outs) :
+    (outs = [(h, t)]) ∨
+    (∃ hp hal, outs = [(hp, t), (hal, t)] ∧ hp.anon = h.anon ∧ hal.anon = false ∧
+      hp.name = h.name ∧ hal.name = h.name ++ aliasFieldSuffix) := by
+  rw [aliasMangle_eq] at hm
+  split at hm
+  · cases hm; exact Or.inl rfl
+  · cases hm; exact Or.inr ⟨_, _, rfl, rfl, rfl, rfl, rfl⟩
+
+/-- on an EMBEDDED struct field with an alias tag (the shape of finding P10: an embedded `Base` tagged
+`dialsalias:"old"`): the primary stays embedded, the alias copy `Base_alias9wr876rw3` is a named field -/
+theorem C14_alias_embedded_example :
+    let h : Hdr := { name := "Base", tags := [("dialsalias", "old")], anon := true }
+    let t : Ty := .ptr (.struct (.cons "A" [] false (.ptr (.basic .bool false)) .nil))
+    ∃ hp hal, aliasMangle ["dials", "dialsenv"] h t = .ok [(hp, t), (hal, t)] ∧
+      hp.anon = true ∧ hal.anon = false ∧ hp.name = "Base" ∧ hal.name = "Base_alias9wr876rw3" ∧
+      tagGet hal.tags "dials" = some "old" := by
+  refine ⟨_, _, rfl, rfl, rfl, rfl, by decide, by decide⟩
 
 /-- The alias field answers to the alias names only: a source-specific name tag `tag'` (any tag of the
 list but the first, base, one) that has no alias of its own on this field is dropped from the alias
